@@ -51,6 +51,15 @@ var checks = map[string]Check{
 			for _, ev := range evs {
 				js = append(js, sched("c02_live", "proto=raw,calls=1,wait=chan,event="+ev, b, 16))
 			}
+			// two calls in flight that deliver to one shared completion channel (capacity = number of calls)
+			js = append(js, sched("c02_live", "proto=raw,calls=2,shared=1,event=none", 0, 4))
+			if tier == "thorough" {
+				for _, ev := range []string{"localclose", "remoteclose", "break"} {
+					j := sched("c02_live", "proto=raw,calls=2,shared=1,event="+ev, 0, 16)
+					j.Budget = 600
+					js = append(js, j)
+				}
+			}
 			for _, k := range []string{"ok", "dup", "unknownseq", "codec0body", "badbody", "errstatus_body", "wrongtype_call", "wrongtype_push", "wrongtype_9", "okmeta", "truncated", "nothing"} {
 				js = append(js, sched("c02_hostile", fmt.Sprintf("kind=%s,calls=1", k), b, 4))
 			}
